@@ -28,8 +28,19 @@ Has(r, k) == k \in DOMAIN r
 SV(v) == IF v.t = "pretok" THEN [t |-> "str", v |-> v.v] ELSE v
 Stored(d) == [f \in (DOMAIN d) \cap storedF |-> [i \in 1..Len(d[f]) |-> SV(d[f][i])]]
 
+\* a long value travels as [t, len, h (hash), head, tail]; `big` names the generated length of such values:
+\* <<id, field, length>>; the value written must have that length (what is read back must equal what was written)
+BigValue(d, f) == IF f = "j" THEN d.j[1].v.k ELSE d[f][1]
+BigOk(e) ==
+  IF ~Has(e, "big") THEN TRUE
+  ELSE {i \in 1..Len(e.big) : LET b == e.big[i] IN
+          IF b[1] \in 1..Len(e.docs) /\ Has(e.docs[b[1]], b[2])
+          THEN LET v == BigValue(e.docs[b[1]], b[2]) IN (IF Has(v, "len") THEN v.len # b[3] ELSE b[3] >= 4096)
+          ELSE TRUE} = {}
+
 TStore ==
   /\ Ev.ev = "store"
+  /\ BigOk(Ev)
   /\ docs' = Ev.docs
   /\ storedF' = {Ev.schema[i].name : i \in {j \in 1..Len(Ev.schema) : Ev.schema[j].stored}}
   /\ cfg' = (Ev.cfg @@ [case |-> Ev.case]) /\ dead' = {} /\ seen' = {} /\ pbytes' = <<0, 0>>
